@@ -109,8 +109,13 @@ impl MetricSink for GatedSink {
     }
 
     fn flush(&self) -> io::Result<()> {
-        self.flush_impl();
-        Ok(())
+        if self.flush_impl() {
+            Ok(())
+        } else {
+            // a flush nobody scripted (the queuing sink flushes the wrapped sink only when flush() is called on a
+            // handle): answer with an error of its own, so that whoever reports it shows up in the handler's record
+            Err(io::Error::new(io::ErrorKind::Other, Payload(7777)))
+        }
     }
 
     /// the wrapped sink's own figures (what it accepted / refused so far); the queuing sink must report exactly these
@@ -140,10 +145,10 @@ pub fn gate_stats(gate: &Gate) -> cadence::SinkStats {
 impl GatedSink {
     /// like the buffered sinks of the crate, flush shares a lock with emit: it waits while a metric is being
     /// processed (bounded, so that a caller that wrongly ends up here is reported as slow instead of hanging)
-    fn flush_impl(&self) {
+    fn flush_impl(&self) -> bool {
         let mut st = self.gate.m.lock().unwrap();
         if st.flush_free {
-            return;      // the script's own flush() on a handle: expected on the caller's thread
+            return true; // the script's own flush() on a handle: expected on the caller's thread
         }
         st.flushes.push(thread::current().id());
         let deadline = Instant::now() + SLOW + Duration::from_millis(100);
@@ -155,6 +160,7 @@ impl GatedSink {
             let (g, _) = self.gate.cv.wait_timeout(st, deadline - now).unwrap();
             st = g;
         }
+        false
     }
 }
 
@@ -325,6 +331,20 @@ pub fn others_asleep() -> bool {
         }
     }
     true
+}
+
+/// wait until every other thread of the process has been seen asleep (or gone) `n` times in a row
+pub fn wait_calm(n: u32, max: Duration) {
+    let t1 = Instant::now();
+    let mut calm = 0;
+    while calm < n && t1.elapsed() < max {
+        if others_asleep() {
+            calm += 1;
+        } else {
+            calm = 0;
+        }
+        thread::sleep(Duration::from_micros(200));
+    }
 }
 
 /// Concurrent soak: `QS <cap|u> <producers> <emits per producer> <seed>`: every producer thread emits through its
